@@ -117,8 +117,11 @@ func sumAxioms(script string) string {
 	for i := 0; i < len(all) && pairs < 600; i++ {
 		for j := i + 1; j < len(all) && pairs < 600; j++ {
 			a, c := all[i], all[j]
-			if a.fn != c.fn || (a.h == c.h && a.s == c.s && a.lo == c.lo && a.hi == c.hi) {
-				continue
+			if a.fn != c.fn || (a.h == c.h && a.s == c.s) {
+				continue // same sequence: equal bounds give equal sums by congruence
+			}
+			if i >= len(occ) && j >= len(occ) {
+				continue // two one-step unfoldings: not needed to connect occurrences
 			}
 			pairs++
 			fmt.Fprintf(&b, "(assert (=> (and (= %s %s) (= %s %s) (forall ((sum.j Int)) (=> (and (<= %s sum.j) (< sum.j %s)) (= %s %s)))) (= %s %s)))\n",
